@@ -22,6 +22,7 @@ META = {
         "set helpers, lex_min and the CLI. Oracle: the eight affine maps of the square applied to the point set "
         "and to cell centres. Non-trivial: the orbit of the object under the oracle's group has size 8. "
         "Distinct = case content."
+        " Light equivariance sweep: contains() of the eight images of every (pattern, host) pair of two lengths against the reference; non-trivial there = the host contains the pattern."
     ),
     "assumptions": [
         "rotate(k>0) is clockwise (documented: negative rotates to the left) - checked against the doc examples in the self-test",
